@@ -1311,13 +1311,19 @@ class ABCPropertyGraph(ABCPropertyGraphConstants):
 
         props = self.interface_sliver_to_graph_properties_dict(interface)
         self.add_node(node_id=interface.node_id, label=ABCPropertyGraph.CLASS_ConnectionPoint, props=props)
-        if parent_node_id is not None:
-            self.add_link(node_a=parent_node_id, rel=ABCPropertyGraph.REL_CONNECTS, node_b=interface.node_id)
-        # if there are child (sub-) interfaces, add them too
-        ii = interface.interface_info
-        if ii is not None:
-            for i in ii.interfaces.values():
-                self.add_interface_sliver(parent_node_id=interface.node_id, interface=i)
+        try:
+            if parent_node_id is not None:
+                self.add_link(node_a=parent_node_id, rel=ABCPropertyGraph.REL_CONNECTS, node_b=interface.node_id)
+            # if there are child (sub-) interfaces, add them too
+            ii = interface.interface_info
+            if ii is not None:
+                for i in ii.interfaces.values():
+                    self.add_interface_sliver(parent_node_id=interface.node_id, interface=i)
+        except Exception:
+            # the interface node is ours at this point: do not leave it behind without its parent
+            # (e.g. when the parent is no longer in the model) or with only some of its sub-interfaces
+            self.remove_cp_and_links(node_id=interface.node_id)
+            raise
 
     def get_all_ns_or_link_connection_points(self, link_id: str) -> List[str]:
         """
